@@ -119,6 +119,11 @@ def run(pid, tier, seed, replay=None):
                 ctx.model_drift("C01 %s: model predicts %s, observed %s %s" % (json.dumps(it["c"], sort_keys=True), it["pred"], o, r.get("msg", "")[:100]))
         ctx.extra["conformance"] = {"compared_with_model_prediction": len(recs) - notacc, "drift": nd}
         ctx.extra["configurations_refused_at_construction"] = notacc
+        # vacuity guard: every configuration the generator draws is meant to be accepted; a harness mistake that makes the
+        # builder raise would otherwise silently remove documents from the check (it did once: a NameError in the builder
+        # dropped every document with a footnote or source for a few hours, section 12.6)
+        if notacc > max(5, len(recs) // 50):
+            raise MachineryError("%d of %d generated configurations were refused at construction" % (notacc, len(recs)))
         ctx.extra["paths_covered"] = sorted({r["cfg"]["path"] for r in recs})
         ctx.extra["refusals_ValueError"] = sum(1 for r in recs if r["c"]["outcome"] == "ValueError")
         if len(ctx.extra["paths_covered"]) < 3 or ctx.extra["refusals_ValueError"] == 0:
